@@ -1,6 +1,8 @@
 """C12 - broken input makes the run fail visibly; it never hangs or loses reads silently."""
 import gzip
 import os
+import re
+import zlib
 import shutil
 
 from .. import climon, fastx, gen_cli as G
@@ -383,6 +385,16 @@ def records_of(text, fmt):
     return fastx.parse_fastq(text, strict=False) if fmt == "fastq" else fastx.parse_fasta(text)
 
 
+INFO_LINE = re.compile(r"^(This is cutadapt |Command line parameters: |Processing (single|paired)-end reads on \d+ cores? |Building index of |Built an index |"
+                       r"Three errors and indels allowed|Indexing could take|If this becomes a problem)")
+
+
+def error_lines(err):
+    """Lines on standard error that are not the informational lines every run prints (they go to standard error, too,
+    when the reads go to standard output)."""
+    return [l for l in err.splitlines() if l.strip() and not INFO_LINE.match(l)]
+
+
 def run_fault(ctx, d, fault, cores, bufsize, perturb, cache, state):
     cmd = fault.cmd or (CMD if fault.fmt == "fastq" else CMD_FA)
     w = os.path.join(d, "w")
@@ -394,7 +406,14 @@ def run_fault(ctx, d, fault, cores, bufsize, perturb, cache, state):
     argv = list(cmd) + list(fault.extra_opts)
     if cores > 1:
         argv += ["-j", str(cores), "--buffer-size", str(bufsize)]
-    argv += io_args(fault.paired_mode, fault.fmt, fault.out_ext) + sorted(fault.files)
+    # in a quarter of the uncompressed single-file layouts the reads go to standard output (all messages then share
+    # standard error with the informational lines)
+    to_stdout = fault.paired_mode != "two" and not fault.out_ext and (zlib.crc32(fault.label.encode()) + cores + bufsize) % 4 == 0
+    io = io_args(fault.paired_mode, fault.fmt, fault.out_ext)
+    if to_stdout:
+        io = io[:io.index("-o")] + io[io.index("-o") + 2:]
+        ctx.count("runs_with_reads_on_standard_output")
+    argv += io + sorted(fault.files)
     run = climon.run(w, argv, tag="run", trace=cores > 1, perturb=perturb, trace_reads=False, timeout=45)
     case = dict(cli=True, argv=argv, files={k: v.decode("latin-1") for k, v in fault.files.items()}, fault=fault.label, cores=cores,
                 bufsize=bufsize, perturb=perturb, extra_opts=list(fault.extra_opts), cmd=fault.cmd)
@@ -414,8 +433,8 @@ def run_fault(ctx, d, fault, cores, bufsize, perturb, cache, state):
     if fault.malformed:
         if run.rc == 0:
             viol("malformed-accepted", f"exit status 0 although the input is malformed; stderr={run.err[-150:]!r}")
-        elif not run.err.strip():
-            viol("no-error-message", f"exit status {run.rc} but nothing on stderr")
+        elif not error_lines(run.err):
+            viol("no-error-message", f"exit status {run.rc} but no message on stderr beyond the informational lines: {run.err[-200:]!r}")
         if run.rc < 0:
             viol("killed-by-signal", f"terminated by signal {-run.rc}")
     else:
@@ -425,14 +444,16 @@ def run_fault(ctx, d, fault, cores, bufsize, perturb, cache, state):
             # recorded, and the run is still checked for a message and for the prefix property below
             ctx.count("wellformed_inputs_rejected")
             ctx.extra.setdefault("wellformed_rejected_example", (fault.label, cores, run.err.strip().splitlines()[-1][:160] if run.err.strip() else ""))
-            if not run.err.strip():
-                viol("no-error-message", f"exit status {run.rc} but nothing on stderr")
+            if not error_lines(run.err):
+                viol("no-error-message", f"exit status {run.rc} but no message on stderr beyond the informational lines: {run.err[-200:]!r}")
     # output content
     exp = expected_output(ctx, d, fault, cmd, cache)
     outs = []
     for f in out_names(fault.paired_mode, fault.fmt, fault.out_ext):
         p = os.path.join(w, f)
-        if not os.path.exists(p):
+        if to_stdout:
+            outs.append(run.out)
+        elif not os.path.exists(p):
             outs.append(None)
         elif fault.out_ext:
             try:
